@@ -4,6 +4,7 @@ from hypothesis import strategies as st
 import pyModeS as pms
 from ref import frames
 from vlib import gen
+from vlib import variants
 from vlib import volume
 from vlib.core import Leg, call
 
@@ -37,6 +38,8 @@ def run_one(cs, tc, cat, df, addr, head27, hc):
     exp = cs.replace(" ", "_")
     me = (tc << 51) | (cat << 48) | pack(cs)
     m = frames.tohex(frames.df17(addr, me, ca=head27 & 7, df=df), 112, hc)
+    if head27 & 8:
+        variants.prelude(pms, m)   # helpers on the same string, and other message types of the same aircraft, decoded first
     r = call(pms.adsb.callsign, m)
     if r != ("ok", exp):
         return "adsb.callsign(%s) -> %r, encoded %r" % (m, r, exp)
